@@ -23,6 +23,10 @@ type quantInfo struct {
 	sk     *Term
 	qs     []*Term // all bound variables (qs[0] == q)
 	sks    []*Term // Skolem witnesses, one per bound variable
+	bodyW  *Term   // body used for the witness (proving the quantifier): facts established while evaluating
+	//                the body (well-formedness of the values read) are hypotheses there, conclusions in body
+	ctx    []*Term // bound variables of the enclosing quantifiers this one depends on (nested quantifier):
+	//                the placeholder is then the application name(ctx...) and the witnesses are functions of ctx
 	triggers []*Term
 }
 
@@ -33,6 +37,26 @@ func (qi *quantInfo) substMap(ts []*Term) map[string]*Term {
 	}
 	return m
 }
+
+// newPlaceholder creates the Boolean placeholder and the witnesses of a quantifier created while
+// the bodies of the quantifiers in e.qctx are being evaluated: they depend on those bound variables.
+func (e *Engine) newPlaceholder(skSorts []Sort, skPrefix string) (p *Term, sks []*Term, ctx []*Term) {
+	ctx = append([]*Term(nil), e.qctx...)
+	if len(ctx) == 0 {
+		p = FreshVar("Q", BoolSort)
+		for _, so := range skSorts {
+			sks = append(sks, FreshVar(skPrefix, so))
+		}
+		return
+	}
+	p = UF(FreshName("Q"), BoolSort, ctx...)
+	for _, so := range skSorts {
+		sks = append(sks, UF(FreshName(skPrefix), so, ctx...))
+	}
+	return
+}
+
+func placeholderName(p *Term) string { return p.name }
 
 func tupleKey(ts []*Term) string {
 	k := ""
@@ -57,15 +81,11 @@ func (e *Engine) mapQuantifier(fr *Frame, st *State, args []Value, site ssa.Inst
 	if isStringType(mt.Key()) {
 		q := FreshVar("qk", 64)
 		qs = []*Term{q}
-		sks = []*Term{FreshVar("skk", 64)}
 		k = Value{T: []*Term{UF("strkey.r", RegionSort, q), UF("strkey.o", IntSort, q), UF("strkey.l", IntSort, q)}}
 		tmp.assume(wfAssumptions(k.T, mt.Key(), false))
 	} else {
 		kts := freshTerms("qk", mt.Key())
 		qs = kts
-		for _, q := range kts {
-			sks = append(sks, FreshVar("skk", q.sort))
-		}
 		k = e.unflat(kts, mt.Key())
 	}
 	present, val := e.mapRead(tmp, mtype, ref, k)
@@ -75,12 +95,17 @@ func (e *Engine) mapQuantifier(fr *Frame, st *State, args []Value, site ssa.Inst
 	nf.spec = true
 	nf.quiet = true
 	nf.prefix = fr.prefix
+	e.qctx = append(e.qctx, qs...)
 	vals := e.finishCall(fr, tmp, nf, []Value{k, e.unflat(val, mt.Elem())}, site)
+	e.qctx = e.qctx[:len(e.qctx)-len(qs)]
 	b := vals[0].term()
-	body := Implies(present, b)
+	facts := pcDelta(tmp.pc, pcLCA(tmp.pc, st.pc))
+	guard := present
 	if !isStringType(mt.Key()) {
-		body = Implies(And(present, wfAssumptions(qs, mt.Key(), false)), b)
+		guard = And(present, wfAssumptions(qs, mt.Key(), false))
 	}
+	body := Implies(guard, And(facts, b))
+	bodyW := Implies(guard, Implies(facts, b))
 	// the same predicate over the same map in the same (relevant) memory state is the same
 	// fact: bodies equal up to the names of the bound variables share one placeholder, so two
 	// evaluations of spec_xxx_ok(h) agree syntactically
@@ -92,19 +117,25 @@ func (e *Engine) mapQuantifier(fr *Frame, st *State, args []Value, site ssa.Inst
 	if e.mapQuantCache == nil {
 		e.mapQuantCache = map[string]*Term{}
 	}
-	if p, ok := e.mapQuantCache[cacheKey]; ok {
+	if p, ok := e.mapQuantCache[cacheKey]; ok && len(e.qctx) == 0 {
 		if os.Getenv("GOVC_DEBUG_Q") != "" {
 			fmt.Fprintf(os.Stderr, "mapquant reuse %s\n", p.name)
 		}
 		return p
 	}
-	p := FreshVar("Q", BoolSort)
+	var skSorts []Sort
+	for _, q := range qs {
+		skSorts = append(skSorts, q.sort)
+	}
+	p, sks, ctx := e.newPlaceholder(skSorts, "skk")
 	if os.Getenv("GOVC_DEBUG_Q") != "" {
 		fmt.Fprintf(os.Stderr, "mapquant new %s key %s\n", p.name, cacheKey)
 	}
-	qi := &quantInfo{forall: true, p: p, q: qs[0], body: body, sk: sks[0], qs: qs, sks: sks}
+	qi := &quantInfo{forall: true, p: p, q: qs[0], body: body, bodyW: bodyW, sk: sks[0], qs: qs, sks: sks, ctx: ctx}
 	e.quantVars[p.name] = qi
-	e.mapQuantCache[cacheKey] = p
+	if len(ctx) == 0 {
+		e.mapQuantCache[cacheKey] = p
+	}
 	return p
 }
 
@@ -123,16 +154,23 @@ func (e *Engine) quantifier(fr *Frame, st *State, forall bool, args []Value, sit
 	tmp := st.clone()
 	inRange := And(BVSle(lo, q), BVSlt(q, hi))
 	tmp.assume(inRange)
+	e.qctx = append(e.qctx, q)
 	vals := e.finishCall(fr, tmp, nf, []Value{scalar(q)}, site)
+	e.qctx = e.qctx[:len(e.qctx)-1]
 	b := vals[0].term()
-	var body *Term
+	var body, bodyW *Term
 	if forall {
-		body = Implies(inRange, b)
+		// facts assumed while evaluating the body (memory well-formedness of what it reads,
+		// path coverage of its branches) hold for every index: they come with each instance,
+		// and may be used when the quantifier is being proved
+		facts := pcDelta(tmp.pc, pcLCA(tmp.pc, st.pc))
+		body = Implies(inRange, And(facts, b))
+		bodyW = Implies(inRange, Implies(facts, b))
 	} else {
 		body = And(inRange, b)
 	}
-	p := FreshVar("Q", BoolSort)
-	qi := &quantInfo{forall: forall, p: p, q: q, body: body, sk: FreshVar("sk", IntSort)}
+	p, sks, ctx := e.newPlaceholder([]Sort{IntSort}, "sk")
+	qi := &quantInfo{forall: forall, p: p, q: q, body: body, bodyW: bodyW, sk: sks[0], ctx: ctx}
 	qi.qs, qi.sks = []*Term{qi.q}, []*Term{qi.sk}
 	e.quantVars[p.name] = qi
 	_ = fmt.Sprint
@@ -145,8 +183,8 @@ func (e *Engine) quantifier(fr *Frame, st *State, forall bool, args []Value, sit
 // at (r', j) with r' possibly equal to r, taking q := j - c.
 func (e *Engine) expandQuantifiers(fs []*Term, goalFs []*Term) []*Term {
 	var axioms []*Term
-	done := map[string]map[string]bool{} // placeholder -> instantiated term ids
-	skdone := map[string]bool{}
+	done := map[int]map[string]bool{} // placeholder instance -> instantiated tuples
+	skdone := map[int]bool{}
 	all := append([]*Term(nil), fs...)
 	polFs := append([]*Term(nil), fs...) // formulas that determine polarities (axiom heads excluded)
 	boundNames := map[string]bool{}
@@ -159,16 +197,44 @@ func (e *Engine) expandQuantifiers(fs []*Term, goalFs []*Term) []*Term {
 	// axioms generated here), not from the whole path condition: instances are
 	// needed for what is being proved, not for everything read so far
 	matchFs := append([]*Term(nil), goalFs...)
-	for round := 0; round < 3; round++ {
+	type qinst struct {
+		qi   *quantInfo // with body / witnesses specialised to this instance
+		p    *Term      // the placeholder term (a Boolean variable, or name(args) for a nested quantifier)
+	}
+	specialised := map[int]*quantInfo{}
+	for round := 0; round < 4; round++ {
 		seen := map[int]bool{}
-		var qs []*quantInfo
+		var qs []qinst
 		var ground []*Term
 		for _, f := range all {
 			Walk(f, seen, func(t *Term) {
-				if t.op == "var" {
-					if qi, ok := e.quantVars[t.name]; ok {
-						qs = append(qs, qi)
+				switch t.op {
+				case "var":
+					if qi, ok := e.quantVars[t.name]; ok && len(qi.ctx) == 0 {
+						qs = append(qs, qinst{qi, t})
 					}
+				case "uf":
+					qi, ok := e.quantVars[t.name]
+					if !ok || len(qi.ctx) != len(t.args) || mentionsAny(t, boundNames) {
+						return
+					}
+					sq := specialised[t.id]
+					if sq == nil {
+						sub := map[string]*Term{}
+						for i, c := range qi.ctx {
+							sub[c.name] = t.args[i]
+						}
+						sq = &quantInfo{forall: qi.forall, p: t, q: qi.q, qs: qi.qs, body: Subst(qi.body, sub)}
+						if qi.bodyW != nil {
+							sq.bodyW = Subst(qi.bodyW, sub)
+						}
+						for _, sk := range qi.sks {
+							sq.sks = append(sq.sks, Subst(sk, sub))
+						}
+						sq.sk = sq.sks[0]
+						specialised[t.id] = sq
+					}
+					qs = append(qs, qinst{sq, t})
 				}
 			})
 		}
@@ -194,31 +260,36 @@ func (e *Engine) expandQuantifiers(fs []*Term, goalFs []*Term) []*Term {
 		pol := polarities(polFs, e.quantVars)
 		var newAx []*Term
 		var groundAll []*Term
-		for _, qi := range qs {
-			pp := pol[qi.p.name]
+		for _, in := range qs {
+			qi := in.qi
+			pp := pol[in.p.id]
 			needWitness := pp&polNeg != 0
 			needInst := pp&polPos != 0
 			if !qi.forall {
 				needWitness, needInst = needInst, needWitness
 			}
-			if needWitness && !skdone[qi.p.name] {
-				skdone[qi.p.name] = true
-				inst := Subst(qi.body, qi.substMap(qi.sks))
+			if needWitness && !skdone[in.p.id] {
+				skdone[in.p.id] = true
+				wb := qi.body
+				if qi.bodyW != nil {
+					wb = qi.bodyW
+				}
+				inst := Subst(wb, qi.substMap(qi.sks))
 				if qi.forall {
-					newAx = append(newAx, Or(qi.p, Not(inst)))
+					newAx = append(newAx, Or(in.p, Not(inst)))
 					polFs = append(polFs, Not(inst))
 				} else {
-					newAx = append(newAx, Or(Not(qi.p), inst))
+					newAx = append(newAx, Or(Not(in.p), inst))
 					polFs = append(polFs, inst)
 				}
 			}
 			if !needInst {
 				continue
 			}
-			d := done[qi.p.name]
+			d := done[in.p.id]
 			if d == nil {
 				d = map[string]bool{}
-				done[qi.p.name] = d
+				done[in.p.id] = d
 			}
 			n := 0
 			var cands [][]*Term
@@ -249,10 +320,10 @@ func (e *Engine) expandQuantifiers(fs []*Term, goalFs []*Term) []*Term {
 				n++
 				inst := Subst(qi.body, qi.substMap(ts))
 				if qi.forall {
-					newAx = append(newAx, Or(Not(qi.p), inst))
+					newAx = append(newAx, Or(Not(in.p), inst))
 					polFs = append(polFs, inst)
 				} else {
-					newAx = append(newAx, Or(qi.p, Not(inst)))
+					newAx = append(newAx, Or(in.p, Not(inst)))
 					polFs = append(polFs, Not(inst))
 				}
 			}
@@ -470,8 +541,8 @@ const (
 
 // polarities computes, for every quantifier placeholder, whether it occurs
 // positively and/or negatively in the conjunction of fs.
-func polarities(fs []*Term, qv map[string]*quantInfo) map[string]int {
-	res := map[string]int{}
+func polarities(fs []*Term, qv map[string]*quantInfo) map[int]int {
+	res := map[int]int{}
 	seen := map[[2]int]bool{}
 	type item struct {
 		t *Term
@@ -503,7 +574,14 @@ func polarities(fs []*Term, qv map[string]*quantInfo) map[string]int {
 		switch t.op {
 		case "var":
 			if _, ok := qv[t.name]; ok {
-				res[t.name] |= it.p
+				res[t.id] |= it.p
+			}
+		case "uf":
+			if _, ok := qv[t.name]; ok && t.sort == BoolSort {
+				res[t.id] |= it.p // instance of a nested quantifier's placeholder
+			}
+			for _, a := range t.args {
+				stack = append(stack, item{a, polPos | polNeg})
 			}
 		case "not":
 			stack = append(stack, item{t.args[0], flip(it.p)})
